@@ -74,7 +74,7 @@ Theorem run_program_cv_stable : forall n m p,
 Proof.
   intros n m p Hle H. unfold run_program_cv in *.
   set (s0 := inst_vars _ _ _) in *.
-  assert (Hn : run n (TList (mkctx 0%nat (WRef 0)) p) s0 <> Fuel).
+  assert (Hn : run n (TList (mkctx 0%nat 0%nat (WRef 0)) p) s0 <> Fuel).
   { intros E. rewrite E in H. apply H. reflexivity. }
   rewrite (run_stable n m _ _ Hle Hn). reflexivity.
 Qed.
